@@ -46,6 +46,15 @@ ATTRS = {
     "line-y1": lambda v: f'<line id="s" y1="{v}" x2="4" y2="4"/>',
     "use-x": lambda v: f'<rect id="t" x="0" y="0" width="3" height="3"/><use id="s" href="#t" x="{v}" y="2"/>',
 }
+# fully specified shapes: (attribute, plain value) in the order written; "solo" cases replace exactly one value
+SOLO = {"line": [("x1", "1"), ("y1", "2"), ("x2", "6"), ("y2", "4")],
+        "rect": [("x", "1"), ("y", "2"), ("width", "6"), ("height", "4"), ("rx", "1"), ("ry", "0.5")],
+        "circle": [("cx", "5"), ("cy", "4"), ("r", "3")],
+        "ellipse": [("cx", "5"), ("cy", "4"), ("rx", "3"), ("ry", "2")],
+        "text": [("x", "2"), ("y", "3")],
+        "use": [("href", "#t"), ("x", "2"), ("y", "3")],
+        "image": [("href", "pic.png"), ("x", "1"), ("y", "2"), ("width", "6"), ("height", "4")]}
+SIZE_ATTRS = {"width", "height", "r", "rx", "ry"}
 ATTR_NAME = {"ellipse-cx": "cx", "ellipse-cy": "cy", "circle-cy": "cy", "rect-y": "y", "line-y1": "y1", "line-end-only": "x2", "use-x": "x", "root-width": "width",
              "rect-x": "x", "rect-width": "width", "circle-r": "r", "line-x2": "x2", "stroke-width": "stroke-width", "text-x": "x",
              "stop-offset": "offset", "font-size": "font-size"}
@@ -232,6 +241,19 @@ def run(rep, tier, seed):
             dim = "width" if j % 2 else "height"
             cases.append({"k": f"c04n-{j}", "xml": f'<svg {dim}="{v}"><rect id="s" x="0" y="0" width="6" height="3"/></svg>',
                           "what": "number:root-width", "case": c, "value": v})
+            continue
+        if c["attr"].startswith("solo:"):
+            _, el, an = c["attr"].split(":")
+            if an in SIZE_ATTRS and c["num"]["sign"] == "-":
+                continue   # negative sizes are errors in SVG itself
+            if c["num"]["mant"] == "huge":
+                continue
+            at = " ".join(f'{k}="{v if k == an else pv}"' for k, pv in SOLO[el])
+            inner = {"text": "label"}.get(el)
+            body = f'<{el} id="s" {at}>{inner}</{el}>' if inner else f'<{el} id="s" {at}/>'
+            if el == "use":
+                body = '<rect id="t" x="0" y="0" width="3" height="3"/>' + body
+            cases.append({"k": f"c04n-{j}", "xml": "<svg>" + body + "</svg>", "what": "number:" + c["attr"], "case": c, "value": v})
             continue
         cases.append({"k": f"c04n-{j}", "xml": "<svg>" + ATTRS[c["attr"]](v) + "</svg>", "what": "number:" + c["attr"], "case": c, "value": v})
     for j, c in enumerate(fam_cases["points"]):
